@@ -1,5 +1,258 @@
-import XlVerif.Base
-/-! Driver for C16 (stub: replaced when the property's model is built). -/
+import XlVerif.Model.C16
+import XlVerif.Spec.C16
+/-!
+  Driver for C16.
+
+  `C16 <FN> <args…>` → `impl=<res>  spec=<res>  kf=<ids>`
+
+  * rounding family (ROUND ROUNDUP ROUNDDOWN TRUNC INT EVEN CEILING FLOOR): number arguments are the
+    text of `str(number.value)` (shortest repr, produced by the same Python on both sides), digit
+    counts are wire numbers (`I:2`, `F:3/2`).  Results: `D:<sign><coef>e<exp>` (a decimal the code
+    converts with `float(...)`), `I:<int>`, `F:<num>/<den>`.
+  * elementary functions: wire numbers (`I:…` ints, `F:n/d` the exact value of a double).
+    `impl` runs the model with the primitives instantiated by Lean's `Float` (execution only);
+    `spec` is `ERR` (outside the domain: an Excel error value is required), an exact `I:`/`F:`
+    value, or `VAL` (a finite value is required; the reference value is Python's `math`).
+-/
 namespace XlVerif.Drv.C16
-def handle (_fields : List String) : String := "error=not-implemented"
+open XlVerif XlVerif.Model.C16
+
+/-! ### decimal text -/
+
+def digitsToNat (cs : List Char) : Option Nat :=
+  if cs.isEmpty then none else
+    cs.foldlM (fun acc c => if c.isDigit then some (acc * 10 + (c.toNat - '0'.toNat)) else none) 0
+
+def parseSignedInt (cs : List Char) : Option Int :=
+  match cs with
+  | '-' :: r => (digitsToNat r).map fun n => -(n : Int)
+  | '+' :: r => (digitsToNat r).map fun n => (n : Int)
+  | r => (digitsToNat r).map fun n => (n : Int)
+
+/-- `str(float)` / `str(int)` → decimal triple, exactly as `decimal.Decimal(text)` reads it. -/
+def parseDec (s : String) : Option Dec :=
+  let cs := s.toList
+  let (neg, cs) := match cs with
+    | '-' :: r => (true, r)
+    | '+' :: r => (false, r)
+    | r => (false, r)
+  let (mant, ex) := cs.span (fun c => c != 'e' && c != 'E')
+  let eVal : Option Int := match ex with
+    | [] => some 0
+    | _ :: r => parseSignedInt r
+  let (ip, fp) := mant.span (· != '.')
+  let fp := fp.drop 1
+  match eVal, digitsToNat (ip ++ fp) with
+  | some e, some c => if ip.isEmpty && fp.isEmpty then none else some ⟨neg, c, e - fp.length⟩
+  | _, _ => none
+
+def decRat (x : Dec) : Rat :=
+  let m : Rat := if 0 ≤ x.exp then ((x.coef * 10 ^ x.exp.toNat : Nat) : Rat)
+                 else (x.coef : Rat) / ((10 ^ (-x.exp).toNat : Nat) : Rat)
+  if x.neg then -m else m
+
+def decWire (d : Dec) : String :=
+  s!"D:{if d.neg then "-" else ""}{d.coef}e{d.exp}"
+
+def numWire : Num → String
+  | .int z => s!"I:{z}"
+  | .flt q => "F:" ++ ratWire q
+
+def resWire {α} (f : α → String) : Res α → String
+  | .val a => f a
+  | .xlerr c => "E:" ++ c.wire
+  | .crash k => "X:" ++ k.wire
+  | .nan => "N:nan" | .posInf => "N:+inf" | .negInf => "N:-inf"
+
+def rvalWire : RVal → String
+  | .dec d => decWire d
+  | .num n => numWire n
+
+def getNum (s : String) : Option Num :=
+  match S.ofWire? s with
+  | some (.num n) => some n
+  | _ => none
+
+/-! ### `Float` instantiation of the primitives (execution only) -/
+
+def twoAdic : Nat → Nat → Nat → Nat × Nat
+  | 0, m, k => (m, k)
+  | fuel + 1, m, k => if m != 0 && m % 2 == 0 then twoAdic fuel (m / 2) (k + 1) else (m, k)
+
+/-- exact conversion of a dyadic rational (the value of a double) to `Float` -/
+def ratToFloat (q : Rat) : Float :=
+  let (m, k) := twoAdic 1200 q.num.natAbs 0
+  let (_, j) := twoAdic 1200 q.den 0
+  let f :=
+    if q.den == 2 ^ j then (Float.ofNat m).scaleB ((k : Int) - (j : Int))
+    else Float.ofNat q.num.natAbs / Float.ofNat q.den
+  if q.num < 0 then -f else f
+
+/-- exact value of a finite `Float` -/
+def floatToOut (f : Float) : Out Rat :=
+  if f.isNaN then .nan
+  else if f.isInf then (if f > 0 then .posInf else .negInf)
+  else
+    let b := f.toBits.toNat
+    let neg := b / 2 ^ 63 == 1
+    let e : Nat := (b / 2 ^ 52) % 2 ^ 11
+    let frac : Nat := b % 2 ^ 52
+    let (m, ex) : Nat × Int := if e == 0 then (frac, -1074) else (frac + 2 ^ 52, (e : Int) - 1075)
+    let v : Rat := if 0 ≤ ex then ((m * 2 ^ ex.toNat : Nat) : Rat) else (m : Rat) / ((2 ^ (-ex).toNat : Nat) : Rat)
+    .val (if neg then -v else v)
+
+def f1 (g : Float → Float) (x : Rat) : Out Rat := floatToOut (g (ratToFloat x))
+
+def piF : Float := Float.ofBits 0x400921FB54442D18
+
+def floatPrims : Prims where
+  sin := f1 Float.sin
+  cos := f1 Float.cos
+  tan := f1 Float.tan
+  asin := f1 Float.asin
+  acos := f1 Float.acos
+  atan := f1 Float.atan
+  cosh := f1 Float.cosh
+  asinh := f1 Float.asinh
+  acosh := f1 Float.acosh
+  exp := f1 Float.exp
+  ln := fun x => if x ≤ 0 then .crash .valueError else f1 Float.log x
+  log10 := f1 Float.log10
+  sqrt := fun x => if x < 0 then .crash .valueError else f1 Float.sqrt x
+  degrees := f1 fun x => x * (180.0 / piF)
+  radians := f1 fun x => x * (piF / 180.0)
+  atan2 := fun y x => floatToOut (Float.atan2 (ratToFloat y) (ratToFloat x))
+  pow := fun x y =>
+    if x == 0 && y < 0 then .crash .zeroDivision else
+    let r := Float.pow (ratToFloat x) (ratToFloat y)
+    if r.isInf then .crash .overflow else floatToOut r
+  logb := fun x b =>
+    if x ≤ 0 || b ≤ 0 then .crash .valueError
+    else if b == 1 then .crash .zeroDivision
+    else floatToOut (Float.log (ratToFloat x) / Float.log (ratToFloat b))
+  pi := match floatToOut piF with | .val q => q | _ => 0
+
+/-! ### requests -/
+
+open Spec.C16 in
+def fnOf : String → Option Fn
+  | "ABS" => some .ABS | "SIGN" => some .SIGN | "SQRT" => some .SQRT | "POWER" => some .POWER
+  | "EXP" => some .EXP | "LN" => some .LN | "LOG" => some .LOG | "LOG10" => some .LOG10
+  | "MOD" => some .MOD | "FACT" => some .FACT | "FACTDOUBLE" => some .FACTDOUBLE
+  | "SIN" => some .SIN | "COS" => some .COS | "TAN" => some .TAN | "ASIN" => some .ASIN
+  | "ACOS" => some .ACOS | "ATAN" => some .ATAN | "ATAN2" => some .ATAN2 | "COSH" => some .COSH
+  | "ASINH" => some .ASINH | "ACOSH" => some .ACOSH | "DEGREES" => some .DEGREES
+  | "RADIANS" => some .RADIANS | "PI" => some .PI
+  | "ROUND" => some .ROUND | "ROUNDUP" => some .ROUNDUP | "ROUNDDOWN" => some .ROUNDDOWN
+  | "TRUNC" => some .TRUNC | "INT" => some .INT | "EVEN" => some .EVEN
+  | "CEILING" => some .CEILING | "FLOOR" => some .FLOOR
+  | _ => none
+
+def ratW (q : Rat) : String := "F:" ++ ratWire q
+def intW (z : Int) : String := s!"I:{z}"
+
+/-- the rounding family: `(impl, spec, kf)` -/
+def rounding (fn : String) (args : List String) : Option (String × String × String) :=
+  match fn, args with
+  | "ROUND", [xs, ds] => do
+      let x ← parseDec xs; let d ← getNum ds
+      pure (resWire rvalWire (ROUND x d), ratW (Spec.C16.round (decRat x) (pyInt d)), "")
+  | "ROUNDUP", [xs, ds] => do
+      let x ← parseDec xs; let d ← getNum ds
+      pure (resWire rvalWire (ROUNDUP x d), ratW (Spec.C16.roundUp (decRat x) (pyInt d)), "")
+  | "ROUNDDOWN", [xs, ds] => do
+      let x ← parseDec xs; let d ← getNum ds
+      pure (resWire rvalWire (ROUNDDOWN x d), ratW (Spec.C16.roundDown (decRat x) (pyInt d)), "")
+  | "TRUNC", [xs, ds] => do
+      let x ← parseDec xs; let d ← getNum ds
+      pure (resWire rvalWire (TRUNC x d), ratW (Spec.C16.trunc (decRat x) (pyInt d)), "")
+  | "INT", [xs] => do
+      let x ← parseDec xs
+      pure (resWire rvalWire (INT x), intW (Spec.C16.int (decRat x)), "")
+  | "EVEN", [xs] => do
+      let x ← parseDec xs
+      let q := decRat x
+      -- D1605: `float(number) / 2.` underflows to 0 for the smallest subnormal double
+      let kf := if q != 0 && (if q < 0 then -q else q) ≤ decRat ⟨false, 5, -324⟩ then "D1605" else ""
+      pure (resWire rvalWire (EVEN x), intW (Spec.C16.even q), kf)
+  | "CEILING", [xs, ss] => do
+      let x ← parseDec xs; let s ← parseDec ss
+      let xq := decRat x; let sq := decRat s
+      let spec := if Spec.C16.outside .CEILING [xq, sq] then "ERR" else ratW (Spec.C16.ceiling xq sq)
+      -- D37: with a non-integer significance the binary float quotient / product decides
+      let kf := if sq.den != 1 then "D37" else ""
+      pure (resWire rvalWire (CEILING x s), spec, kf)
+  | "FLOOR", [xs, ss] => do
+      let x ← parseDec xs; let s ← parseDec ss
+      let xq := decRat x; let sq := decRat s
+      let spec := if Spec.C16.outside .FLOOR [xq, sq] then "ERR" else ratW (Spec.C16.floor xq sq)
+      let kf := if sq.den != 1 then "D37" else ""
+      pure (resWire rvalWire (FLOOR x s), spec, kf)
+  | _, _ => none
+
+/-- elementary functions: `(impl, spec)` -/
+def elementary (fn : String) (args : List Num) : Option (String × String) :=
+  let P := floatPrims
+  let w := resWire numWire
+  let dom (f : Spec.C16.Fn) (exact : Option String := none) : String :=
+    if Spec.C16.outside f (args.map Num.toRat) then "ERR" else exact.getD "VAL"
+  match fn, args with
+  | "ABS", [x] => some (w (ABS x), ratW (Spec.C16.abs x.toRat))
+  | "SIGN", [x] => some (w (SIGN x), intW (Spec.C16.sign x.toRat))
+  | "SQRT", [x] => some (w (SQRT P x), dom .SQRT)
+  | "POWER", [x, p] =>
+      let exact : Option String := match x, p with
+        | .int a, .int b => if 0 ≤ b then some (intW (a ^ b.toNat)) else none
+        | _, _ => none
+      some (w (POWER P x p), dom .POWER exact)
+  | "EXP", [x] => some (w (EXP P x), dom .EXP)
+  | "LN", [x] => some (w (LN P x), dom .LN)
+  | "LOG", [x, b] => some (w (LOG P x b), dom .LOG)
+  | "LOG10", [x] => some (w (LOG10 P x), dom .LOG10)
+  | "MOD", [x, d] => some (w (MOD x d), dom .MOD (some (ratW (Spec.C16.mod x.toRat d.toRat))))
+  | "FACT", [x] =>
+      some (w (FACT x), dom .FACT (some (intW (Spec.C16.fact (Spec.C16.truncZ x.toRat).toNat))))
+  | "FACTDOUBLE", [x] =>
+      some (w (FACTDOUBLE x),
+            dom .FACTDOUBLE (some (intW (Spec.C16.factDouble (Spec.C16.truncZ x.toRat).toNat))))
+  | "SIN", [x] => some (w (SIN P x), dom .SIN)
+  | "COS", [x] => some (w (COS P x), dom .COS)
+  | "TAN", [x] => some (w (TAN P x), dom .TAN)
+  | "ASIN", [x] => some (w (ASIN P x), dom .ASIN)
+  | "ACOS", [x] => some (w (ACOS P x), dom .ACOS)
+  | "ATAN", [x] => some (w (ATAN P x), dom .ATAN)
+  | "ATAN2", [x, y] =>
+      -- spec: the model-independent statement `ATAN2(x, y) = atan2 y x` on the same primitive
+      some (w (ATAN2 P x y), w (lift (Spec.C16.atan2 P.atan2 x.toRat y.toRat)))
+  | "COSH", [x] => some (w (COSH P x), dom .COSH)
+  | "ASINH", [x] => some (w (ASINH P x), dom .ASINH)
+  | "ACOSH", [x] => some (w (ACOSH P x), dom .ACOSH)
+  | "DEGREES", [x] => some (w (DEGREES P x), dom .DEGREES)
+  | "RADIANS", [x] => some (w (RADIANS P x), dom .RADIANS)
+  | "PI", [] => some (w (PI P), "VAL")
+  | "ISEVEN", [x] => some (if ISEVEN x then "B:1" else "B:0",
+                           if (Spec.C16.truncZ x.toRat) % 2 == 0 then "B:1" else "B:0")
+  | "ISODD", [x] => some (if ISODD x then "B:1" else "B:0",
+                          if (Spec.C16.truncZ x.toRat) % 2 == 0 then "B:0" else "B:1")
+  | _, _ => none
+
+def isRounding (fn : String) : Bool :=
+  ["ROUND", "ROUNDUP", "ROUNDDOWN", "TRUNC", "INT", "EVEN", "CEILING", "FLOOR"].contains fn
+
+def handle (fields : List String) : String :=
+  match fields with
+  | fn :: rest =>
+    if isRounding fn then
+      match rounding fn rest with
+      | some (i, s, k) => kv [("impl", i), ("spec", s), ("kf", k)]
+      | none => "error=bad-request"
+    else
+      match rest.mapM getNum with
+      | none => "error=bad-args"
+      | some args =>
+        match elementary fn args with
+        | some (i, s) => kv [("impl", i), ("spec", s), ("kf", "")]
+        | none => "error=bad-request"
+  | [] => "error=empty"
+
 end XlVerif.Drv.C16
